@@ -652,7 +652,14 @@ where
         if pos >= 0 && pos < (self.get_buf().len() as i64) {
             // position reachable within buffer -> no actual seeking necessary
             self.position = to.clone();
-            self.state = State::Positioned;
+            // A buffer that is not full means that EOF was reached, unless an
+            // earlier refill failed. `Incomplete` makes the next read complete
+            // the refill before searching.
+            self.state = if self.get_buf().len() < self.buf_reader.capacity() {
+                State::Incomplete
+            } else {
+                State::Positioned
+            };
             self.search_pos = pos as usize;
             self.buf_pos.reset(pos as usize);
             return Ok(());
